@@ -20,7 +20,7 @@ ANCHORS = ['phylib.io.merge:_load_multiple_spike_times', 'phylib.io.merge:_load_
 RULE = ('Each case = 1-4 generated probe directories (independent spike counts 4-60, channel counts 2-7, '
         'template counts 2-6, ids with gaps / curated clusters / spikeless templates, spike times on a coarse '
         'grid so that ties occur inside and across probes, id dtypes int32/uint32/int64/uint16, exact-zero metadata values, occasionally a probe with 70 or 130 templates, time dtypes '
-        'uint64/int64, per-cluster TSV files in all / some / none of the probes) merged by the real '
+        'uint64/int64, per-cluster TSV files in all / some / none of the probes; probe folders that share their name; two merges with a 40000-spike probe) merged by the real '
         'Merger.merge(). C11 oracle: the output files and the returned model are compared, position by '
         'position, with the stable merge of the inputs by (time, probe, original index) - exactly-once '
         'conservation of (time, amplitude, template, cluster) tuples; per-probe id offsets are RECOVERED from '
@@ -45,6 +45,8 @@ def plan(tier, seed):
 def run_shard(desc, ctx):
     for i in range(desc['cases']):
         run_case({'seed': [desc['seed'], desc['shard'], i]}, ctx)
+    if desc['shard'] < 2:
+        run_case({'seed': [desc['seed'], desc['shard'], 4242], 'huge': True}, ctx)
 
 
 def run_case(case, ctx, which='C11'):
@@ -64,6 +66,7 @@ def build(case):
     mat_mode = {m: ['all', 'some', 'none'][int(rng.integers(0, 3))] for m in ('wm', 'similar', 'wmi')}
     tsv_mode = {t: ['all', 'some', 'none'][int(rng.integers(0, 3))] for t in TSVS}
     dt_ind = ['int32', 'uint32', 'int64', 'mixed'][int(rng.integers(0, 4))]
+    huge = bool(case.get('huge')) and k >= 2      # id files beyond 256 KiB in a probe with a non-zero offset
     many_spikes = bool(rng.random() < 0.02)      # size: thousands of spikes per probe
     big = int(rng.integers(0, max(1, k - 1))) if (k >= 2 and rng.random() < 0.06) else -1   # a non-last probe with > 64 templates
     specs = []
@@ -71,12 +74,12 @@ def build(case):
         def pick(mode):
             return mode == 'all' or (mode == 'some' and (p % 2 == 0))
         s = random_spec(rng, nc=int(rng.integers(2, 8)), nt=int(rng.integers(2, 7)) if p != big else int(rng.choice([70, 130])),
-                        nsw=nsw, ns=int(rng.integers(4, 60)) if not many_spikes else int(rng.integers(3000, 6000)),
+                        nsw=nsw, ns=(int(rng.integers(4, 60)) if not many_spikes else int(rng.integers(3000, 6000))) if not (huge and p == 1) else 40000,
                         rate=rate, n_samples=n_samples, clusters=['same', 'curated'][int(rng.integers(0, 2))],
                         wm=pick(mat_mode['wm']), similar=pick(mat_mode['similar']), wmi_file=pick(mat_mode['wmi']),
                         features='sparse', tfeatures=True, nloc=2, tfeat_nloc=2,
                         dtype_ind=dt_ind if dt_ind != 'mixed' else ['int64', 'uint32', 'int32'][p % 3],
-                        dtype_ids=['int32', 'uint32', 'int64', 'uint16'][int(rng.integers(0, 4))],
+                        dtype_ids=['int32', 'uint32', 'int64', 'uint16'][int(rng.integers(0, 4))] if not huge else 'int64',
                         dtype_times=['uint64', 'int64'][int(rng.integers(0, 2))],
                         spikeless=['none', 'none', 'middle', 'last'][int(rng.integers(0, 4))],
                         ncdat_extra=int(rng.integers(0, 3)), permute_map=bool(rng.integers(0, 2)))
@@ -106,8 +109,9 @@ def _run(case, ctx, d, which):
     specs, info = build(case)
     k = info['k']
     subdirs = []
+    same_leaf = case['seed'][-1] % 5 == 2          # .../imec0/ks2, .../imec1/ks2: probe folders with equal names
     for p, s in enumerate(specs):
-        sd = os.path.join(d, 'probe%d' % p)
+        sd = os.path.join(d, 'imec%d' % p, 'ks2') if same_leaf else os.path.join(d, 'probe%d' % p)
         s.write(sd)
         subdirs.append(sd)
     out = os.path.join(d, 'merged')
@@ -133,7 +137,20 @@ def _run(case, ctx, d, which):
     mon = monitors.CURRENT
     if mon.fs:
         mon.fs.watch(*subdirs)
-    r = call(lambda: Merger(subdirs, out).merge())
+    merger = Merger(subdirs, out)
+    if k >= 2 and case['seed'][-1] % 7 == 3:
+        # history: a first merge() fails at a later probe (an input file is missing), the input is repaired and
+        # merge() is called again on the SAME Merger object; the retry is the one judged
+        ctx.cell('failed_then_retried')
+        f0 = dict(f0, retried=True)
+        victim = os.path.join(subdirs[-1], ['templates.npy', 'channel_map.npy', 'amplitudes.npy'][case['seed'][-1] % 3])
+        os.rename(victim, victim + '.away')
+        r0 = call(merger.merge)
+        os.rename(victim + '.away', victim)
+        if r0.ok:
+            ctx.note('merge_succeeded_without_an_input_file')
+            call(r0.value.close)
+    r = call(merger.merge)
     audit = mon.fs.stop() if mon.fs else []
     after = [snapshot(sd) for sd in subdirs]
     if not r.ok:
